@@ -477,6 +477,14 @@ def shapes():
         b.const(I32, 3); b.drop()
 
     @shape
+    def grouped_locals_start_at_zero(b):          # locals declared as one (count, type) group: EVERY member starts at zero
+        b.local_get(4); b.local_get(5); b.binop("i32.add")
+        b.local_get(6); b.local_get(7); b.binop("i64.add"); b.wrap(); b.binop("i32.add")
+        b.local_get(0); b.local_set(5)
+        b.local_get(1); b.extend(); b.local_set(7)
+        b.local_get(5); b.binop("i32.add"); b.local_get(7); b.wrap(); b.binop("i32.xor")
+
+    @shape
     def tee_and_overwrite_param(b):
         b.local_get(0); b.const(I32, 1); b.binop("i32.add"); b.local_tee(0)
         b.local_get(0); b.binop("i32.xor")
